@@ -166,6 +166,36 @@ check("C26",
     assumptions=["the kernel never reports more entries than it was given and reports entries in order (sendmmsg semantics)"],
 )
 
+FW_REAL = ["Firewall (Drop, conntrack, rule tables built through real config parsing), Interface.reloadFirewall via config reload, real HostInfo/CachedCertificate/CAPool from real handshakes, the real inbound/outbound packet paths for the C17 real-path events"]
+FW_STUB = ["peers' application traffic (firewall.Packet tuples drawn from the tape)", "routine-local conntrack cache ticker (the driver clears the cache map as the ticker would)", "UDP socket, tun, clock, randomness as in engine A"]
+FW_RULE = "one run = victim node with 1-2 overlay networks, optional unsafe network, default_local_cidr_any on/off, small (1-22 s) or default conntrack timeouts, optional routine-local cache, rules version optionally preset near its wrap, 2-4 peers (names, groups g1-g3, two CAs, multi-address incl. addresses outside the victim's networks, unsafe networks), 0-5 generated rules per direction, then 80-280 (thorough: up to 1800) steps of packets through Drop (new tuples, repeated tuples in both directions, tuples claimed by another peer), clock advances around each timeout, reloads (identical, remove a rule, add a rule, new rule set) and real-path events (byzantine peer sending crafted inner packets through its tunnel; the victim sending packets with arbitrary addresses); distinct = distinct abstract trace hash; non-trivial = packets passed both by rule and by tracking and something was refused as expired, stale or address-inauthentic"
+
+def fw_check(pid, **kw):
+    kw.setdefault("pkg", "nebula")
+    kw.setdefault("engine", "C-component")
+    kw.setdefault("scenarios", [pid + ".fw"])
+    kw.setdefault("real", FW_REAL)
+    kw.setdefault("stub", FW_STUB)
+    kw.setdefault("rule", FW_RULE)
+    kw.setdefault("level_note", "Trusted: the ~120-line reference model (rule evaluator written from the documented semantics, address rule, flow table with last-pass time and original direction) and the S-fw harness. " + A_NOTE)
+    kw.setdefault("quick", tier(3000, 35))
+    kw.setdefault("thorough", tier(200000, 900, shrink_s=120))
+    kw.setdefault("assumptions", A_ASSUME + ["idle gaps are never placed exactly on a timeout boundary by construction of the oracle (strict/non-strict bounds)"])
+    check(pid, **kw)
+
+fw_check("C16",
+    technique="deterministic simulation of timed packet/reload histories against the real firewall of a node holding real tunnels; every packet that meets no tracked flow compares the real verdict with an independent evaluator of the documented rule semantics (claimed only as the stateless core of the C17-C19 history model)",
+    level_text="Sampling of rule configurations x packet tuples x peers riding on the conntrack history simulation: a packet some rule allows must pass (and becomes tracked), a packet no rule allows and no live flow covers must not. This is exploration of configurations, not a proof of the rule evaluator.")
+fw_check("C17",
+    technique="deterministic simulation with byzantine certified peers sending crafted inner packets through real tunnels, tuples of other peers tracked first, and the node's own outbound packets decrypted by the harness at the peer; address authenticity checked regardless of rules and tracking state",
+    level_text="Seeded search over packet histories: whatever the rules and tracked flows, a packet passes the firewall / reaches the tun / leaves toward a peer only if its remote address is a certified address of that peer inside the node's networks or inside the peer's unsafe networks and its local address is one of the node's certified addresses or inside its unsafe networks. Checked at Drop level for every generated tuple and on the real inbound and outbound packet paths. Evidence, not proof.")
+fw_check("C18",
+    technique="deterministic simulation on the simulated clock: timed flow histories with idle gaps just below/above the TCP, UDP and default timeouts, with and without unrelated flow churn and the routine-local cache, against a reference conntrack (oriented tuple, last-pass time)",
+    level_text="Seeded search over timed histories: a packet no rule allows may pass only if the reference holds that exact tuple with last pass no longer ago than its protocol's timeout (plus one cache window when the routine cache is on); after expiry it must not pass until a rule-allowed packet re-creates the flow. Only the stated direction (passes only if) is enforced. Evidence, not proof.")
+fw_check("C19",
+    technique="deterministic simulation of reload sequences (identical, rule removed/added, new rule sets, rules-version counter preset near its wrap) interleaved with traffic through real config reloads, against a reference that revalidates each tracked flow's original direction under the current rules",
+    level_text="Seeded search over reload/traffic histories: a tracked flow lets a rule-less packet through only if the current rules still allow the flow's original direction, otherwise it is forgotten; after the version counter wraps every flow needs a rule again; a flow that is live, still allowed and has seen no rule change since its last packet must not be cut (checked when the routine cache is off). Evidence, not proof.")
+
 NOT_APPLICABLE = {
     "C03": "pure encode/decode round trip over input bytes; no clock, schedule, fault or second party for a simulator to control",
     "C04": "pure function of (certificate to sign, signer); offline CLI; nothing to schedule or fault",
